@@ -558,17 +558,18 @@ def Mat.pySet {F} (s : Mat F) (row0 : Nat) (i : Int) (v : F) : Option (Mat F) :=
   | some p => some { s with mem := setAt s.mem (p * s.nrows + row0) v }
   | none => none
 
-/-- A program after numbering: `(row of the left-hand side, right-hand side)` in evaluation order. -/
-abbrev Prog := List (Nat × Expr Nat)
+/-- A program after numbering: `((row of the left-hand side, its own offset), right-hand side)` in evaluation order.
+    The defined variable may carry a lag or lead of its own (`H[1] = H + YD - C` assigns period `t + 1`). -/
+abbrev Prog := List ((Nat × Int) × Expr Nat)
 
 /-- The `{equations}` block of `evaluate` at column `index`: assignments in order, the right-hand side converted to
     real(8) on assignment.  An equation that does not compile leaves the store unchanged (never run in practice:
     such a module cannot be built). -/
 def fBody {F4 F8} (T : Tower F4 F8) : Prog → Mat F8 → Int → Mat F8
   | [], s, _ => s
-  | (r, e) :: rest, s, index =>
+  | ((r, k), e) :: rest, s, index =>
     match denF T (fun a off => s.fget (T.o8.ofInt 0) (a : Nat) (index + off)) e with
-    | some v => fBody T rest (s.fset r index (v.to8 T)) index
+    | some v => fBody T rest (s.fset r (index + k) (v.to8 T)) index
     | none => fBody T rest s index
 
 /-- Every `self._x[t + off]` read by the expression is inside the span (otherwise NumPy raises IndexError). -/
@@ -590,12 +591,13 @@ def Mat.pySetD {F} (s : Mat F) (row0 : Nat) (i : Int) (v : F) : Mat F :=
 def pRhs {F} (o : RealOps F) (s : Mat F) (t : Int) (e : Expr Nat) : F :=
   (denP o (fun a off => (s.pyGet (o.ofInt 0) (a - 1) (t + off)).getD (o.ofInt 0)) e).toF o
 
-/-- The generated Python `_evaluate(t)`: `self._<lhs>[t] = <rhs>` in order; rows are 1-based numbers here, so the
+/-- The generated Python `_evaluate(t)`: `self._<lhs>[t + k] = <rhs>` in order; rows are 1-based numbers here, so the
     Python row is `r - 1`.  Returns the store and whether IndexError was raised (stores made before it survive). -/
 def pBody {F} (o : RealOps F) : Prog → Mat F → Int → Mat F × Bool
   | [], s, _ => (s, false)
-  | (r, e) :: rest, s, t =>
-    if refsOk s.ncols t e && (pyIndex s.ncols t).isSome then pBody o rest (s.pySetD (r - 1) t (pRhs o s t e)) t
+  | ((r, k), e) :: rest, s, t =>
+    if refsOk s.ncols t e && (pyIndex s.ncols (t + k)).isSome then
+      pBody o rest (s.pySetD (r - 1) (t + k) (pRhs o s t e)) t
     else (s, true)
 
 /-! ## (c) FORTRAN_TEMPLATE: `evaluate`, `solve_t`, `solve` -/
